@@ -1,6 +1,1203 @@
-//! (stub) — not generated yet.
-use super::{GenFile, Repo};
+//! Translator module for `Gen/Visitors.lean` (property C16).
+//!
+//! Reads every feature-gated serialisation item of the crate and emits a data table:
+//!
+//! * each `impl Visitor for X`: which `visit_*` methods exist and the *class* of each body
+//!   (`copy`, `take`, `borrow`, `validateThen x`, `seq cap`, `error`) — bodies are matched
+//!   against a closed list of token-tree templates;
+//! * each `impl Serialize` / `impl Deserialize` / `pub fn borrow_deserialize`: the serializer
+//!   call or the visitor/delegate it hands the deserializer to;
+//! * each `impl BorshSerialize` / `impl BorshDeserialize`: the reader's shape (length prefix
+//!   type, zero shortcut, the capacity expression `len.min(4096)`, per-byte loop, constructor);
+//! * each `From`/`TryFrom` of a `bstr` type into a Hip type.
+//!
+//! Capacity caps are read from the source as numerals.  The generator FAILS CLOSED: any item or
+//! body that does not match a template is an `Err` naming `file:line`.
 
-pub fn generate(_repo: &Repo) -> Result<Vec<GenFile>, String> {
-    Ok(vec![])
+use std::collections::BTreeMap;
+use std::str::FromStr;
+
+use proc_macro2::{Delimiter, Spacing, TokenStream, TokenTree};
+use quote::ToTokens;
+use syn::spanned::Spanned;
+
+use super::repo::{loc, SrcFile};
+use super::{GenFile, Repo, HEADER};
+
+type R<T> = Result<T, String>;
+
+// ---------------------------------------------------------------------------------------------
+// Token-tree templates
+// ---------------------------------------------------------------------------------------------
+
+/// A token tree normalised for matching: groups are kept as units, a trailing `,` inside a group
+/// is dropped (so `match` arms with or without the last comma compare equal).
+#[derive(Clone, Debug, PartialEq)]
+enum Tok {
+    Ident(String),
+    Punct(char, bool),
+    Lit(String),
+    Group(Delimiter, Vec<Tok>),
+}
+
+fn normalise(ts: TokenStream) -> Vec<Tok> {
+    let mut out = vec![];
+    for tt in ts {
+        match tt {
+            TokenTree::Ident(i) => out.push(Tok::Ident(i.to_string())),
+            TokenTree::Punct(p) => out.push(Tok::Punct(p.as_char(), p.spacing() == Spacing::Joint)),
+            TokenTree::Literal(l) => out.push(Tok::Lit(l.to_string())),
+            TokenTree::Group(g) => {
+                let mut inner = normalise(g.stream());
+                if let Some(Tok::Punct(',', _)) = inner.last() {
+                    inner.pop();
+                }
+                if g.delimiter() == Delimiter::None {
+                    out.extend(inner);
+                } else {
+                    out.push(Tok::Group(g.delimiter(), inner));
+                }
+            }
+        }
+    }
+    out
+}
+
+/// Bindings of template holes.
+#[derive(Default, Debug, Clone)]
+struct Binds {
+    idents: BTreeMap<String, String>,
+    nums: BTreeMap<String, u64>,
+}
+
+impl Binds {
+    fn id(&self, k: &str) -> &str {
+        self.idents.get(k).map(String::as_str).unwrap_or("")
+    }
+    fn num(&self, k: &str) -> u64 {
+        *self.nums.get(k).expect("template numeral hole")
+    }
+}
+
+fn parse_int_lit(s: &str) -> Option<u64> {
+    // a plain or suffixed integer literal, decimal / hex / with `_`
+    let lit: syn::LitInt = syn::parse_str(s).ok()?;
+    lit.base10_parse::<u64>().ok()
+}
+
+/// Holes in a template: identifiers `__I<name>` match any identifier (the same name must match
+/// the same identifier everywhere), `__N<name>` match an integer literal, `__T<name>` match any
+/// single token tree (typically a parenthesised argument list).
+fn match_seq(pat: &[Tok], src: &[Tok], b: &mut Binds) -> bool {
+    if pat.len() != src.len() {
+        return false;
+    }
+    for (p, s) in pat.iter().zip(src) {
+        match (p, s) {
+            (Tok::Ident(h), _) if h.starts_with("__T") => {}
+            (Tok::Ident(h), Tok::Ident(i)) if h.starts_with("__I") => {
+                let key = h[3..].to_string();
+                match b.idents.get(&key) {
+                    Some(prev) if prev != i => return false,
+                    Some(_) => {}
+                    None => {
+                        b.idents.insert(key, i.clone());
+                    }
+                }
+            }
+            (Tok::Ident(h), Tok::Lit(l)) if h.starts_with("__N") => match parse_int_lit(l) {
+                Some(n) => {
+                    b.nums.insert(h[3..].to_string(), n);
+                }
+                None => return false,
+            },
+            (Tok::Ident(a), Tok::Ident(c)) => {
+                if a != c {
+                    return false;
+                }
+            }
+            (Tok::Punct(a, _), Tok::Punct(c, _)) => {
+                if a != c {
+                    return false;
+                }
+            }
+            (Tok::Lit(a), Tok::Lit(c)) => {
+                if a != c {
+                    return false;
+                }
+            }
+            (Tok::Group(d1, i1), Tok::Group(d2, i2)) => {
+                if d1 != d2 || !match_seq(i1, i2, b) {
+                    return false;
+                }
+            }
+            _ => return false,
+        }
+    }
+    true
+}
+
+fn template(pat: &str) -> Vec<Tok> {
+    normalise(TokenStream::from_str(pat).expect("template parses"))
+}
+
+fn matches(pat: &str, src: &[Tok]) -> Option<Binds> {
+    let mut b = Binds::default();
+    if match_seq(&template(pat), src, &mut b) {
+        Some(b)
+    } else {
+        None
+    }
+}
+
+/// Tokens of a block's content (without the braces).
+fn block_toks(block: &syn::Block) -> Vec<Tok> {
+    let mut ts = TokenStream::new();
+    for s in &block.stmts {
+        s.to_tokens(&mut ts);
+    }
+    normalise(ts)
+}
+
+// ---------------------------------------------------------------------------------------------
+// Table data
+// ---------------------------------------------------------------------------------------------
+
+#[derive(Clone, Copy, PartialEq, Eq, Debug, PartialOrd, Ord)]
+enum Kind {
+    Byt,
+    Str,
+    Os,
+    Path,
+}
+
+impl Kind {
+    fn from_ident(s: &str) -> Option<Kind> {
+        match s {
+            "HipByt" => Some(Kind::Byt),
+            "HipStr" => Some(Kind::Str),
+            "HipOsStr" => Some(Kind::Os),
+            "HipPath" => Some(Kind::Path),
+            _ => None,
+        }
+    }
+    fn lean(self) -> &'static str {
+        match self {
+            Kind::Byt => ".byt",
+            Kind::Str => ".str",
+            Kind::Os => ".os",
+            Kind::Path => ".path",
+        }
+    }
+}
+
+#[derive(Clone, PartialEq, Eq, Debug)]
+enum Body {
+    Copy,
+    Take,
+    Borrow,
+    ValidateThen(Box<Body>),
+    Seq(Option<u64>),
+    Error,
+}
+
+impl Body {
+    fn lean(&self) -> String {
+        match self {
+            Body::Copy => ".copy".into(),
+            Body::Take => ".take".into(),
+            Body::Borrow => ".borrow".into(),
+            Body::ValidateThen(b) => format!(".validateThen ({})", b.lean_inner()),
+            Body::Seq(Some(n)) => format!(".seq (some {n})"),
+            Body::Seq(None) => ".seq none".into(),
+            Body::Error => ".error".into(),
+        }
+    }
+    fn lean_inner(&self) -> String {
+        self.lean()
+    }
+}
+
+/// Data class of a method parameter.
+#[derive(Clone, Copy, PartialEq, Eq, Debug)]
+enum Ty {
+    Bytes,
+    Str,
+}
+
+/// Ownership class of a method parameter: `Long` = a reference that lives as long as the value
+/// being produced (the `'de` data), `Short` = a transient reference, `Owned` = `Vec<u8>`/`String`.
+#[derive(Clone, Copy, PartialEq, Eq, Debug)]
+enum Own {
+    Long,
+    Short,
+    Owned,
+}
+
+struct VisitorRow {
+    kind: Kind,
+    name: String,
+    borrows_de: bool,
+    loc: String,
+    methods: Vec<(String, Body, String)>,
+    file: String,
+}
+
+fn visitor_id(kind: Kind, borrows: bool) -> R<&'static str> {
+    match (kind, borrows) {
+        (Kind::Byt, false) => Ok(".bytOwned"),
+        (Kind::Byt, true) => Ok(".bytBorrowed"),
+        (Kind::Str, false) => Ok(".strOwned"),
+        (Kind::Str, true) => Ok(".strBorrowed"),
+        _ => Err(format!("no visitor id for {kind:?}")),
+    }
+}
+
+// ---------------------------------------------------------------------------------------------
+// syn helpers
+// ---------------------------------------------------------------------------------------------
+
+fn bad(file: &SrcFile, span: proc_macro2::Span, what: &str) -> String {
+    format!("Gen/Visitors: unsupported {what} at {}", loc(file, span))
+}
+
+fn type_last_ident(t: &syn::Type) -> Option<String> {
+    match t {
+        syn::Type::Path(p) => p.path.segments.last().map(|s| s.ident.to_string()),
+        _ => None,
+    }
+}
+
+/// First lifetime generic argument of the last path segment (`HipByt<'de, B>` → `de`, `'_` → `_`).
+fn first_lifetime_arg(p: &syn::Path) -> Option<String> {
+    let seg = p.segments.last()?;
+    if let syn::PathArguments::AngleBracketed(a) = &seg.arguments {
+        for arg in &a.args {
+            if let syn::GenericArgument::Lifetime(l) = arg {
+                return Some(l.ident.to_string());
+            }
+        }
+    }
+    None
+}
+
+fn first_type_arg(p: &syn::Path) -> Option<&syn::Type> {
+    let seg = p.segments.last()?;
+    if let syn::PathArguments::AngleBracketed(a) = &seg.arguments {
+        for arg in &a.args {
+            if let syn::GenericArgument::Type(t) = arg {
+                return Some(t);
+            }
+        }
+    }
+    None
+}
+
+fn is_cfg_test(attrs: &[syn::Attribute]) -> bool {
+    attrs.iter().any(|a| {
+        a.path().is_ident("cfg") && a.to_token_stream().to_string().replace(' ', "").contains("cfg(test)")
+    })
+}
+
+/// `(name, type)` of the n-th non-receiver parameter.
+fn nth_param(sig: &syn::Signature, n: usize) -> Option<(String, &syn::Type)> {
+    let mut k = 0;
+    for inp in &sig.inputs {
+        if let syn::FnArg::Typed(pt) = inp {
+            if k == n {
+                let name = match &*pt.pat {
+                    syn::Pat::Ident(pi) => pi.ident.to_string(),
+                    _ => return None,
+                };
+                return Some((name, &pt.ty));
+            }
+            k += 1;
+        }
+    }
+    None
+}
+
+/// Classifies a visit-method parameter type: `&str`, `&'x str`, `String`, `&[u8]`, `&'x [u8]`,
+/// `Vec<u8>`.  The lifetime is returned when written.
+fn classify_param(t: &syn::Type) -> Option<(Ty, bool, Option<String>)> {
+    match t {
+        syn::Type::Reference(r) => {
+            if r.mutability.is_some() {
+                return None;
+            }
+            let lt = r.lifetime.as_ref().map(|l| l.ident.to_string());
+            match &*r.elem {
+                syn::Type::Path(p) if p.path.is_ident("str") => Some((Ty::Str, false, lt)),
+                syn::Type::Slice(s) => match &*s.elem {
+                    syn::Type::Path(p) if p.path.is_ident("u8") => Some((Ty::Bytes, false, lt)),
+                    _ => None,
+                },
+                _ => None,
+            }
+        }
+        syn::Type::Path(p) => {
+            let last = p.path.segments.last()?;
+            if last.ident == "String" && last.arguments.is_none() {
+                Some((Ty::Str, true, None))
+            } else if last.ident == "Vec" {
+                match first_type_arg(&p.path) {
+                    Some(syn::Type::Path(e)) if e.path.is_ident("u8") => Some((Ty::Bytes, true, None)),
+                    _ => None,
+                }
+            } else {
+                None
+            }
+        }
+        _ => None,
+    }
+}
+
+// ---------------------------------------------------------------------------------------------
+// Visitor method bodies
+// ---------------------------------------------------------------------------------------------
+
+const FROM_UTF8: [&str; 3] = ["core::str::from_utf8", "str::from_utf8", "std::str::from_utf8"];
+const FROM_UTF8_UNCHECKED: [&str; 3] = [
+    "core::str::from_utf8_unchecked",
+    "str::from_utf8_unchecked",
+    "std::str::from_utf8_unchecked",
+];
+const STRING_PATHS: [&str; 2] = ["String", "alloc::string::String"];
+
+/// Classifies the body of a non-`seq` visit method (or of a bstr conversion when `wrap_ok` is
+/// false and the constructor is not wrapped in `Ok(..)`).
+fn classify_value_body(
+    toks: &[Tok],
+    kind: Kind,
+    kind_ident: &str,
+    param: &str,
+    ty: Ty,
+    own: Own,
+) -> Option<Body> {
+    let kind_ty = match kind {
+        Kind::Byt => Ty::Bytes,
+        Kind::Str => Ty::Str,
+        _ => return None,
+    };
+    let ok_k = |b: &Binds| {
+        b.id("v") == param && (b.id("K") == kind_ident || b.id("K") == "Self")
+    };
+    let from_body = |own: Own| if own == Own::Owned { Body::Take } else { Body::Copy };
+
+    // direct constructors
+    if let Some(b) = matches("Ok(__IK::from(__Iv))", toks) {
+        if ok_k(&b) && ty == kind_ty {
+            return Some(from_body(own));
+        }
+        return None;
+    }
+    if let Some(b) = matches("Ok(__IK::from(__Iv.as_bytes()))", toks) {
+        if ok_k(&b) && ty == Ty::Str && kind == Kind::Byt {
+            return Some(Body::Copy);
+        }
+        return None;
+    }
+    if let Some(b) = matches("Ok(__IK::from(__Iv.into_bytes()))", toks) {
+        if ok_k(&b) && ty == Ty::Str && own == Own::Owned && kind == Kind::Byt {
+            return Some(Body::Take);
+        }
+        return None;
+    }
+    if let Some(b) = matches("Ok(__IK::borrowed(__Iv))", toks) {
+        if ok_k(&b) && ty == kind_ty && own == Own::Long {
+            return Some(Body::Borrow);
+        }
+        return None;
+    }
+    if let Some(b) = matches("Ok(__IK::borrowed(__Iv.as_bytes()))", toks) {
+        if ok_k(&b) && ty == Ty::Str && own == Own::Long && kind == Kind::Byt {
+            return Some(Body::Borrow);
+        }
+        return None;
+    }
+    // validation, `match` style
+    for f in FROM_UTF8 {
+        for (ctor, need_long) in [("from", false), ("borrowed", true)] {
+            let pat = format!(
+                "match {f}(__Iv) {{ Ok(__Is) => Ok(__IK::{ctor}(__Is)), Err(__Ie) => Err __Targs }}"
+            );
+            if let Some(b) = matches(&pat, toks) {
+                if ok_k(&b) && ty == Ty::Bytes && own != Own::Owned && kind == Kind::Str
+                    && b.id("s") != "_"
+                    && (!need_long || own == Own::Long)
+                {
+                    let inner = if need_long { Body::Borrow } else { Body::Copy };
+                    return Some(Body::ValidateThen(Box::new(inner)));
+                }
+                return None;
+            }
+        }
+    }
+    for s in STRING_PATHS {
+        let pat = format!(
+            "match {s}::from_utf8(__Iv) {{ Ok(__Is) => Ok(__IK::from(__Is)), Err(__Ie) => Err __Targs }}"
+        );
+        if let Some(b) = matches(&pat, toks) {
+            if ok_k(&b) && ty == Ty::Bytes && own == Own::Owned && kind == Kind::Str && b.id("s") != "_" {
+                return Some(Body::ValidateThen(Box::new(Body::Take)));
+            }
+            return None;
+        }
+    }
+    // no validation (`unsafe { from_utf8_unchecked }`): recorded as the bare class
+    for f in FROM_UTF8_UNCHECKED {
+        for (ctor, need_long) in [("from", false), ("borrowed", true)] {
+            let pat = format!("Ok(__IK::{ctor}(unsafe {{ {f}(__Iv) }}))");
+            if let Some(b) = matches(&pat, toks) {
+                if ok_k(&b) && ty == Ty::Bytes && own != Own::Owned && kind == Kind::Str
+                    && (!need_long || own == Own::Long)
+                {
+                    return Some(if need_long { Body::Borrow } else { Body::Copy });
+                }
+                return None;
+            }
+        }
+    }
+    for s in STRING_PATHS {
+        let pat = format!("Ok(__IK::from(unsafe {{ {s}::from_utf8_unchecked(__Iv) }}))");
+        if let Some(b) = matches(&pat, toks) {
+            if ok_k(&b) && ty == Ty::Bytes && own == Own::Owned && kind == Kind::Str {
+                return Some(Body::Take);
+            }
+            return None;
+        }
+    }
+    if matches("Err __Targs", toks).is_some() {
+        return Some(Body::Error);
+    }
+    None
+}
+
+/// Classifies the body of `visit_seq`.
+fn classify_seq_body(toks: &[Tok], kind_ident: &str, param: &str) -> Option<Body> {
+    let tail = "let mut __Ibuf = Vec::with_capacity(__Ilen); \
+                while let Some(__Ib) = __Iseq.next_element()? { __Ibuf.push(__Ib); } \
+                Ok(__IK::from(__Ibuf))";
+    let capped = [
+        "let __Ilen = core::cmp::min(__Iseq.size_hint().unwrap_or(0), __Ncap);",
+        "let __Ilen = __Iseq.size_hint().unwrap_or(0).min(__Ncap);",
+        "let __Ilen = cmp::min(__Iseq.size_hint().unwrap_or(0), __Ncap);",
+    ];
+    let ok = |b: &Binds| b.id("seq") == param && (b.id("K") == kind_ident || b.id("K") == "Self");
+    for head in capped {
+        if let Some(b) = matches(&format!("{head} {tail}"), toks) {
+            return if ok(&b) { Some(Body::Seq(Some(b.num("cap")))) } else { None };
+        }
+    }
+    if let Some(b) = matches(&format!("let __Ilen = __Iseq.size_hint().unwrap_or(0); {tail}"), toks) {
+        return if ok(&b) { Some(Body::Seq(None)) } else { None };
+    }
+    // no reservation at all
+    let unreserved = "let mut __Ibuf = Vec::new(); \
+                      while let Some(__Ib) = __Iseq.next_element()? { __Ibuf.push(__Ib); } \
+                      Ok(__IK::from(__Ibuf))";
+    if let Some(b) = matches(unreserved, toks) {
+        return if ok(&b) { Some(Body::Seq(Some(0))) } else { None };
+    }
+    None
+}
+
+fn method_lean(name: &str) -> Option<&'static str> {
+    Some(match name {
+        "visit_str" => ".str",
+        "visit_borrowed_str" => ".borrowedStr",
+        "visit_string" => ".string",
+        "visit_bytes" => ".bytes",
+        "visit_borrowed_bytes" => ".borrowedBytes",
+        "visit_byte_buf" => ".byteBuf",
+        "visit_seq" => ".seq",
+        "visit_char" => ".char",
+        _ => return None,
+    })
+}
+
+fn parse_visitor(file: &SrcFile, imp: &syn::ItemImpl, trait_path: &syn::Path) -> R<VisitorRow> {
+    let name = type_last_ident(&imp.self_ty).ok_or_else(|| bad(file, imp.self_ty.span(), "visitor self type"))?;
+    let de_lt = first_lifetime_arg(trait_path).ok_or_else(|| bad(file, trait_path.span(), "Visitor without lifetime"))?;
+    let mut value: Option<(Kind, String, Option<String>)> = None;
+    for it in &imp.items {
+        if let syn::ImplItem::Type(t) = it {
+            if t.ident == "Value" {
+                if let syn::Type::Path(p) = &t.ty {
+                    let id = p.path.segments.last().map(|s| s.ident.to_string()).unwrap_or_default();
+                    let kind = Kind::from_ident(&id).ok_or_else(|| bad(file, t.span(), "visitor Value type"))?;
+                    value = Some((kind, id, first_lifetime_arg(&p.path)));
+                } else {
+                    return Err(bad(file, t.span(), "visitor Value type"));
+                }
+            } else {
+                return Err(bad(file, t.span(), "associated type in visitor"));
+            }
+        }
+    }
+    let (kind, kind_ident, value_lt) = value.ok_or_else(|| bad(file, imp.span(), "visitor without Value"))?;
+    if kind != Kind::Byt && kind != Kind::Str {
+        return Err(bad(file, imp.span(), "visitor for a non byt/str type"));
+    }
+    let borrows_de = de_lt != "_" && value_lt.as_deref() == Some(de_lt.as_str());
+    let mut methods = vec![];
+    for it in &imp.items {
+        match it {
+            syn::ImplItem::Type(_) => {}
+            syn::ImplItem::Fn(f) => {
+                let fname = f.sig.ident.to_string();
+                if fname == "expecting" {
+                    continue;
+                }
+                let m = method_lean(&fname).ok_or_else(|| bad(file, f.sig.span(), &format!("visitor method `{fname}`")))?;
+                let (pname, pty) = nth_param(&f.sig, 0).ok_or_else(|| bad(file, f.sig.span(), "visit method parameter"))?;
+                let toks = block_toks(&f.block);
+                let body = if fname == "visit_seq" {
+                    classify_seq_body(&toks, &kind_ident, &pname)
+                } else if fname == "visit_char" {
+                    if matches("Err __Targs", &toks).is_some() { Some(Body::Error) } else { None }
+                } else {
+                    let (ty, owned, lt) = classify_param(pty).ok_or_else(|| bad(file, pty.span(), "visit method parameter type"))?;
+                    // the parameter class must be the one the trait method prescribes
+                    let (want_ty, want_owned, may_long) = match fname.as_str() {
+                        "visit_str" => (Ty::Str, false, false),
+                        "visit_borrowed_str" => (Ty::Str, false, true),
+                        "visit_string" => (Ty::Str, true, false),
+                        "visit_bytes" => (Ty::Bytes, false, false),
+                        "visit_borrowed_bytes" => (Ty::Bytes, false, true),
+                        "visit_byte_buf" => (Ty::Bytes, true, false),
+                        _ => unreachable!(),
+                    };
+                    if ty != want_ty || owned != want_owned {
+                        return Err(bad(file, pty.span(), "visit method parameter type"));
+                    }
+                    let own = if owned {
+                        Own::Owned
+                    } else if may_long && lt.is_some() && lt == value_lt && lt.as_deref() == Some(de_lt.as_str()) {
+                        Own::Long
+                    } else {
+                        Own::Short
+                    };
+                    classify_value_body(&toks, kind, &kind_ident, &pname, ty, own)
+                };
+                let body = body.ok_or_else(|| bad(file, f.block.span(), &format!("body of `{fname}`")))?;
+                methods.push((m.to_string(), body, loc(file, f.sig.fn_token.span())));
+            }
+            other => return Err(bad(file, other.span(), "item in visitor impl")),
+        }
+    }
+    Ok(VisitorRow {
+        kind,
+        name,
+        borrows_de,
+        loc: loc(file, imp.impl_token.span()),
+        methods,
+        file: file.rel.clone(),
+    })
+}
+
+// ---------------------------------------------------------------------------------------------
+// Serialize / Deserialize / borsh / bstr
+// ---------------------------------------------------------------------------------------------
+
+fn hint_lean(method: &str) -> Option<&'static str> {
+    Some(match method {
+        "deserialize_bytes" => ".bytes",
+        "deserialize_byte_buf" => ".byteBuf",
+        "deserialize_str" => ".str",
+        "deserialize_string" => ".string",
+        "deserialize_seq" => ".seq",
+        "deserialize_any" => ".any",
+        _ => return None,
+    })
+}
+
+/// Target of a deserialisation entry point, as Lean source (visitor names resolved later).
+enum DeTarget {
+    Visitor { hint: &'static str, visitor: String },
+    StdOsString,
+    Hip { kind: Kind, borrowing: bool },
+}
+
+struct DeRow {
+    kind: Kind,
+    borrowing: bool,
+    target: DeTarget,
+    loc: String,
+    file: String,
+}
+
+fn single_fn<'a>(file: &SrcFile, imp: &'a syn::ItemImpl, name: &str) -> R<&'a syn::ImplItemFn> {
+    let mut found = None;
+    for it in &imp.items {
+        match it {
+            syn::ImplItem::Fn(f) if f.sig.ident == name && found.is_none() => found = Some(f),
+            other => return Err(bad(file, other.span(), &format!("item in impl (expected only `fn {name}`)"))),
+        }
+    }
+    found.ok_or_else(|| bad(file, imp.span(), &format!("impl without `fn {name}`")))
+}
+
+fn parse_de_body(file: &SrcFile, block: &syn::Block, param: &str, kind: Kind, borrowing: bool) -> R<DeTarget> {
+    let toks = block_toks(block);
+    if let Some(b) = matches("__Id.__Ihint(__IV(PhantomData))", &toks) {
+        if b.id("d") == param {
+            if let Some(h) = hint_lean(b.id("hint")) {
+                return Ok(DeTarget::Visitor { hint: h, visitor: b.id("V").to_string() });
+            }
+        }
+        return Err(bad(file, block.span(), "deserializer call"));
+    }
+    if !borrowing {
+        let direct = matches("Ok(Self::from(__IK::deserialize(__Id)?))", &toks);
+        let via_let = matches("let __Is = __IK::deserialize(__Id)?; Ok(Self::from(__Is))", &toks);
+        if let Some(b) = direct.or(via_let) {
+            if b.id("d") == param {
+                if b.id("K") == "OsString" && kind == Kind::Os {
+                    return Ok(DeTarget::StdOsString);
+                }
+                if let Some(k) = Kind::from_ident(b.id("K")) {
+                    if k != kind {
+                        return Ok(DeTarget::Hip { kind: k, borrowing: false });
+                    }
+                }
+            }
+            return Err(bad(file, block.span(), "delegating deserialize"));
+        }
+    } else if let Some(b) = matches("crate::__Imod::serde::borrow_deserialize(__Id).map(__IK::from)", &toks) {
+        let k = match b.id("mod") {
+            "bytes" => Some(Kind::Byt),
+            "string" => Some(Kind::Str),
+            "path" => Some(Kind::Path),
+            _ => None,
+        };
+        if let (Some(k), true, true) = (k, b.id("d") == param, Kind::from_ident(b.id("K")) == Some(kind)) {
+            if k != kind {
+                return Ok(DeTarget::Hip { kind: k, borrowing: true });
+            }
+        }
+        return Err(bad(file, block.span(), "delegating borrow_deserialize"));
+    }
+    Err(bad(file, block.span(), "deserialize body"))
+}
+
+fn parse_ser_body(file: &SrcFile, block: &syn::Block, param: &str, kind: Kind) -> R<&'static str> {
+    let toks = block_toks(block);
+    let table: [(&str, &str, &[Kind]); 5] = [
+        ("__Is.serialize_bytes(self.as_slice())", ".serializeBytes", &[Kind::Byt]),
+        ("__Is.serialize_bytes(self.as_bytes())", ".serializeBytes", &[Kind::Byt]),
+        ("__Is.serialize_str(self.as_str())", ".serializeStr", &[Kind::Str]),
+        ("self.as_os_str().serialize(__Is)", ".stdOsStr", &[Kind::Os]),
+        ("self.as_path().serialize(__Is)", ".stdPath", &[Kind::Path]),
+    ];
+    for (pat, lean, kinds) in table {
+        if let Some(b) = matches(pat, &toks) {
+            if b.id("s") == param && kinds.contains(&kind) {
+                return Ok(lean);
+            }
+            return Err(bad(file, block.span(), "serialize call for this type"));
+        }
+    }
+    Err(bad(file, block.span(), "serialize body"))
+}
+
+fn prefix_bytes(ty: &str) -> Option<u64> {
+    Some(match ty {
+        "u8" => 1,
+        "u16" => 2,
+        "u32" => 4,
+        "u64" => 8,
+        _ => return None,
+    })
+}
+
+fn parse_borsh_de_body(file: &SrcFile, block: &syn::Block, param: &str, kind: Kind) -> R<String> {
+    let toks = block_toks(block);
+    let head = "let __Ilen = __Ipfx::deserialize_reader(__Ir)? as usize; if __Ilen == 0 { Ok(Self::new()) } else";
+    let push_loop = "for _ in 0..__Ilen { __Ivec.push(u8::deserialize_reader(__Ir)?); } Ok(Self::from(__Ivec))";
+    let check = |b: &Binds| b.id("r") == param && kind == Kind::Byt;
+    let pfx = |b: &Binds| prefix_bytes(b.id("pfx")).ok_or_else(|| bad(file, block.span(), "borsh length prefix type"));
+
+    if let Some(b) = matches(
+        &format!("{head} {{ let mut __Ivec = Vec::with_capacity(__Ilen.min(__Ncap)); {push_loop} }}"),
+        &toks,
+    ) {
+        if check(&b) {
+            return Ok(format!(".reader {} true (.minLen {}) true .fromVec", pfx(&b)?, b.num("cap")));
+        }
+    }
+    if let Some(b) = matches(
+        &format!("{head} {{ let mut __Ivec = Vec::with_capacity(core::cmp::min(__Ilen, __Ncap)); {push_loop} }}"),
+        &toks,
+    ) {
+        if check(&b) {
+            return Ok(format!(".reader {} true (.minLen {}) true .fromVec", pfx(&b)?, b.num("cap")));
+        }
+    }
+    if let Some(b) = matches(&format!("{head} {{ let mut __Ivec = Vec::with_capacity(__Ilen); {push_loop} }}"), &toks) {
+        if check(&b) {
+            return Ok(format!(".reader {} true .exact true .fromVec", pfx(&b)?));
+        }
+    }
+    if let Some(b) = matches(
+        &format!(
+            "{head} {{ let mut __Ires = Self::with_capacity(__Ilen); \
+             let __Isl = __Ires.spare_capacity_mut(); \
+             for __Ib in __Isl.iter_mut().take(__Ilen) {{ __Ib.write(u8::deserialize_reader(__Ir)?); }} \
+             unsafe {{ __Ires.set_len(__Ilen); }} \
+             Ok(__Ires) }}"
+        ),
+        &toks,
+    ) {
+        if check(&b) {
+            return Ok(format!(".reader {} true .exact true .setLen", pfx(&b)?));
+        }
+    }
+    let via = "let __Ib: HipByt<__IB> = HipByt::deserialize_reader(__Ir)?;";
+    if let Some(b) = matches(&format!("{via} Self::try_from(__Ib).map_err __Targs"), &toks) {
+        if b.id("r") == param && kind == Kind::Str {
+            // the closure must build an `InvalidData` error
+            let text = block.to_token_stream().to_string();
+            if text.contains("ErrorKind :: InvalidData") {
+                return Ok(".viaBytThenValidate".into());
+            }
+        }
+    }
+    if let Some(b) = matches(&format!("{via} Ok(unsafe {{ Self::from_utf8_unchecked(__Ib) }})"), &toks) {
+        if b.id("r") == param && kind == Kind::Str {
+            return Ok(".viaBytUnchecked".into());
+        }
+    }
+    Err(bad(file, block.span(), "borsh deserialize_reader body"))
+}
+
+fn parse_borsh_ser_body(file: &SrcFile, block: &syn::Block, param: &str, kind: Kind) -> R<&'static str> {
+    let toks = block_toks(block);
+    for (pat, kinds) in [
+        ("self.as_slice().serialize(__Iw)", &[Kind::Byt][..]),
+        ("self.as_bytes().serialize(__Iw)", &[Kind::Byt, Kind::Str][..]),
+    ] {
+        if let Some(b) = matches(pat, &toks) {
+            if b.id("w") == param && kinds.contains(&kind) {
+                return Ok(".sliceU8");
+            }
+        }
+    }
+    Err(bad(file, block.span(), "borsh serialize body"))
+}
+
+/// `impl … for HipX<'lt, B>`: the kind and the written lifetime.
+fn hip_self(imp: &syn::ItemImpl) -> Option<(Kind, Option<String>)> {
+    if let syn::Type::Path(p) = &*imp.self_ty {
+        let id = p.path.segments.last()?.ident.to_string();
+        let k = Kind::from_ident(&id)?;
+        return Some((k, first_lifetime_arg(&p.path)));
+    }
+    None
+}
+
+struct BstrRow {
+    src: &'static str,
+    kind: Kind,
+    fallible: bool,
+    body: Body,
+    loc: String,
+}
+
+/// Source class of a bstr conversion: `&'a BStr`, `BString`, `Cow<'a, BStr>`.
+fn bstr_source(t: &syn::Type) -> Option<(&'static str, Option<String>)> {
+    match t {
+        syn::Type::Reference(r) if r.mutability.is_none() => {
+            if type_last_ident(&r.elem).as_deref() == Some("BStr") {
+                return Some(("ref", r.lifetime.as_ref().map(|l| l.ident.to_string())));
+            }
+            None
+        }
+        syn::Type::Path(p) => {
+            let last = p.path.segments.last()?;
+            if last.ident == "BString" {
+                return Some(("owned", None));
+            }
+            if last.ident == "Cow" {
+                if let Some(inner) = first_type_arg(&p.path) {
+                    if type_last_ident(inner).as_deref() == Some("BStr") {
+                        return Some(("cow", first_lifetime_arg(&p.path)));
+                    }
+                }
+            }
+            None
+        }
+        _ => None,
+    }
+}
+
+fn mentions(t: &impl ToTokens, words: &[&str]) -> bool {
+    let s = t.to_token_stream().to_string();
+    words.iter().any(|w| s.split(|c: char| !c.is_alphanumeric() && c != '_').any(|x| x == *w))
+}
+
+fn parse_bstr_impl(file: &SrcFile, imp: &syn::ItemImpl, trait_path: &syn::Path, rows: &mut Vec<BstrRow>) -> R<()> {
+    let tname = trait_path.segments.last().unwrap().ident.to_string();
+    let hip = hip_self(imp);
+    match tname.as_str() {
+        "Borrow" | "AsRef" | "PartialEq" | "PartialOrd" => return Ok(()),
+        "From" | "TryFrom" => {}
+        _ => return Err(bad(file, imp.span(), &format!("impl of `{tname}` in a bstr module"))),
+    }
+    let src_ty = first_type_arg(trait_path).ok_or_else(|| bad(file, trait_path.span(), "conversion source"))?;
+    let (kind, self_lt) = match hip {
+        Some(x) => x,
+        None => {
+            // conversion OUT of a Hip type (`From<HipByt> for BString`): cannot create a Hip value
+            if mentions(&imp.self_ty, &["HipByt", "HipStr", "HipOsStr", "HipPath"]) {
+                return Err(bad(file, imp.span(), "conversion target"));
+            }
+            return Ok(());
+        }
+    };
+    let fallible = tname == "TryFrom";
+    let fname = if fallible { "try_from" } else { "from" };
+    let mut func = None;
+    for it in &imp.items {
+        match it {
+            syn::ImplItem::Fn(f) if f.sig.ident == fname => func = Some(f),
+            syn::ImplItem::Type(t) if fallible && t.ident == "Error" => {}
+            other => return Err(bad(file, other.span(), "item in bstr conversion impl")),
+        }
+    }
+    let func = func.ok_or_else(|| bad(file, imp.span(), "conversion without fn"))?;
+    let (pname, _) = nth_param(&func.sig, 0).ok_or_else(|| bad(file, func.sig.span(), "conversion parameter"))?;
+    let (src, src_lt) = bstr_source(src_ty).ok_or_else(|| bad(file, src_ty.span(), "conversion source type"))?;
+    let long = src_lt.is_some() && src_lt != Some("_".into()) && src_lt == self_lt;
+    let toks = block_toks(&func.block);
+    let here = loc(file, imp.impl_token.span());
+    let unsupported = || bad(file, func.block.span(), "bstr conversion body");
+    let mut push = |src: &'static str, body: Body| rows.push(BstrRow { src, kind, fallible, body, loc: here.clone() });
+    match (src, kind, fallible) {
+        ("ref", Kind::Byt, false) => {
+            let b = matches("__IK::borrowed(__Iv.as_ref())", &toks).ok_or_else(unsupported)?;
+            if b.id("v") != pname || !long || !(b.id("K") == "HipByt" || b.id("K") == "Self") {
+                return Err(unsupported());
+            }
+            push(".bstrRef", Body::Borrow);
+        }
+        ("owned", Kind::Byt, false) => {
+            let b = matches("__IK::from(Vec::from(__Iv))", &toks).ok_or_else(unsupported)?;
+            if b.id("v") != pname || !(b.id("K") == "HipByt" || b.id("K") == "Self") {
+                return Err(unsupported());
+            }
+            push(".bstring", Body::Take);
+        }
+        ("cow", Kind::Byt, false) => {
+            let b = matches(
+                "match __Iv { Cow::Borrowed(__Ib) => Self::from(__Ib), Cow::Owned(__Io) => Self::from(__Io) }",
+                &toks,
+            )
+            .ok_or_else(unsupported)?;
+            if b.id("v") != pname || !long {
+                return Err(unsupported());
+            }
+            // the two arms dispatch to the `&BStr` and `BString` conversions of the same type:
+            // their bodies are copied from those rows once the whole file is read
+            push(".cowBorrowed", Body::Error);
+            push(".cowOwned", Body::Error);
+        }
+        ("owned", Kind::Str, true) => {
+            let b = matches(
+                "let __Ivec = Vec::from(__Iv); let __Istring = String::from_utf8(__Ivec)?; Ok(Self::from(__Istring))",
+                &toks,
+            )
+            .ok_or_else(unsupported)?;
+            if b.id("v") != pname {
+                return Err(unsupported());
+            }
+            push(".bstring", Body::ValidateThen(Box::new(Body::Take)));
+        }
+        ("ref", Kind::Str, true) => {
+            let b = matches(
+                "let __Isl = <&'__Ia [u8]>::from(__Iv); let __Istring = str::from_utf8(__Isl)?; Ok(Self::borrowed(__Istring))",
+                &toks,
+            )
+            .ok_or_else(unsupported)?;
+            if b.id("v") != pname || !long || Some(b.id("a").to_string()) != self_lt {
+                return Err(unsupported());
+            }
+            push(".bstrRef", Body::ValidateThen(Box::new(Body::Borrow)));
+        }
+        _ => return Err(bad(file, imp.span(), "bstr conversion")),
+    }
+    Ok(())
+}
+
+// ---------------------------------------------------------------------------------------------
+// Driver
+// ---------------------------------------------------------------------------------------------
+
+#[derive(Default)]
+struct Tables {
+    visitors: Vec<VisitorRow>,
+    de: Vec<DeRow>,
+    ser: Vec<(Kind, &'static str, String)>,
+    borsh_de: Vec<(Kind, String, String)>,
+    borsh_ser: Vec<(Kind, &'static str, String)>,
+    bstr: Vec<BstrRow>,
+}
+
+fn is_codec_file(rel: &str) -> Option<&'static str> {
+    if rel.ends_with("/serde.rs") {
+        Some("serde")
+    } else if rel.ends_with("/borsh.rs") {
+        Some("borsh")
+    } else if rel.ends_with("/bstr.rs") {
+        Some("bstr")
+    } else {
+        None
+    }
+}
+
+fn scan_items(file: &SrcFile, items: &[syn::Item], t: &mut Tables) -> R<()> {
+    let module = is_codec_file(&file.rel);
+    for item in items {
+        match item {
+            syn::Item::Mod(m) => {
+                if is_cfg_test(&m.attrs) {
+                    continue;
+                }
+                if let Some((_, inner)) = &m.content {
+                    scan_items(file, inner, t)?;
+                }
+            }
+            syn::Item::Impl(imp) => {
+                let Some((_, trait_path, _)) = &imp.trait_ else {
+                    if module.is_some() {
+                        return Err(bad(file, imp.span(), "inherent impl in a serialisation module"));
+                    }
+                    continue;
+                };
+                let tname = trait_path.segments.last().unwrap().ident.to_string();
+                match tname.as_str() {
+                    "Visitor" => t.visitors.push(parse_visitor(file, imp, trait_path)?),
+                    "Deserialize" => {
+                        let (kind, _) = hip_self(imp).ok_or_else(|| bad(file, imp.span(), "Deserialize for a non-Hip type"))?;
+                        let f = single_fn(file, imp, "deserialize")?;
+                        let (p, _) = nth_param(&f.sig, 0).ok_or_else(|| bad(file, f.sig.span(), "deserialize parameter"))?;
+                        let target = parse_de_body(file, &f.block, &p, kind, false)?;
+                        t.de.push(DeRow { kind, borrowing: false, target, loc: loc(file, imp.impl_token.span()), file: file.rel.clone() });
+                    }
+                    "Serialize" => {
+                        let (kind, _) = hip_self(imp).ok_or_else(|| bad(file, imp.span(), "Serialize for a non-Hip type"))?;
+                        let f = single_fn(file, imp, "serialize")?;
+                        let (p, _) = nth_param(&f.sig, 0).ok_or_else(|| bad(file, f.sig.span(), "serialize parameter"))?;
+                        let call = parse_ser_body(file, &f.block, &p, kind)?;
+                        t.ser.push((kind, call, loc(file, imp.impl_token.span())));
+                    }
+                    "BorshDeserialize" => {
+                        let (kind, _) = hip_self(imp).ok_or_else(|| bad(file, imp.span(), "BorshDeserialize for a non-Hip type"))?;
+                        let f = single_fn(file, imp, "deserialize_reader")?;
+                        let (p, _) = nth_param(&f.sig, 0).ok_or_else(|| bad(file, f.sig.span(), "reader parameter"))?;
+                        let shape = parse_borsh_de_body(file, &f.block, &p, kind)?;
+                        t.borsh_de.push((kind, shape, loc(file, imp.impl_token.span())));
+                    }
+                    "BorshSerialize" => {
+                        let (kind, _) = hip_self(imp).ok_or_else(|| bad(file, imp.span(), "BorshSerialize for a non-Hip type"))?;
+                        let f = single_fn(file, imp, "serialize")?;
+                        let (p, _) = nth_param(&f.sig, 0).ok_or_else(|| bad(file, f.sig.span(), "writer parameter"))?;
+                        let shape = parse_borsh_ser_body(file, &f.block, &p, kind)?;
+                        t.borsh_ser.push((kind, shape, loc(file, imp.impl_token.span())));
+                    }
+                    _ if module == Some("bstr") => parse_bstr_impl(file, imp, trait_path, &mut t.bstr)?,
+                    _ if module.is_some() => {
+                        return Err(bad(file, imp.span(), &format!("impl of `{tname}` in a serialisation module")))
+                    }
+                    _ => {
+                        // elsewhere: only conversions that mention a bstr type would matter
+                        if mentions(trait_path, &["BStr", "BString"]) && (tname == "From" || tname == "TryFrom") {
+                            return Err(bad(file, imp.span(), "bstr conversion outside a bstr module"));
+                        }
+                    }
+                }
+            }
+            syn::Item::Fn(f) => {
+                let name = f.sig.ident.to_string();
+                match module {
+                    Some("serde") => {
+                        if name != "borrow_deserialize" {
+                            return Err(bad(file, f.sig.span(), &format!("free function `{name}` in a serde module")));
+                        }
+                        // return type: Result<HipX<'a, B>, D::Error>
+                        let kind = match &f.sig.output {
+                            syn::ReturnType::Type(_, ty) => match &**ty {
+                                syn::Type::Path(p) if p.path.segments.last().map_or(false, |s| s.ident == "Result") => {
+                                    first_type_arg(&p.path).and_then(type_last_ident).and_then(|s| Kind::from_ident(&s))
+                                }
+                                _ => None,
+                            },
+                            _ => None,
+                        }
+                        .ok_or_else(|| bad(file, f.sig.span(), "borrow_deserialize return type"))?;
+                        let (p, _) = nth_param(&f.sig, 0).ok_or_else(|| bad(file, f.sig.span(), "borrow_deserialize parameter"))?;
+                        let target = parse_de_body(file, &f.block, &p, kind, true)?;
+                        t.de.push(DeRow { kind, borrowing: true, target, loc: loc(file, f.sig.fn_token.span()), file: file.rel.clone() });
+                    }
+                    Some("borsh") => return Err(bad(file, f.sig.span(), "free function in a borsh module")),
+                    Some("bstr") => {
+                        if mentions(&f.sig.output, &["HipByt", "HipStr", "HipOsStr", "HipPath", "Self"]) {
+                            return Err(bad(file, f.sig.span(), "free function producing a Hip value in a bstr module"));
+                        }
+                    }
+                    _ => {}
+                }
+            }
+            syn::Item::Macro(m) => {
+                if module.is_some() {
+                    let name = m.mac.path.segments.last().map(|s| s.ident.to_string()).unwrap_or_default();
+                    if !(module == Some("bstr") && (name == "symmetric_eq" || name == "symmetric_ord")) {
+                        return Err(bad(file, m.span(), &format!("macro `{name}!` in a serialisation module")));
+                    }
+                }
+            }
+            syn::Item::Use(_) | syn::Item::Const(_) | syn::Item::Struct(_) => {}
+            other => {
+                if module.is_some() {
+                    return Err(bad(file, other.span(), "item in a serialisation module"));
+                }
+            }
+        }
+    }
+    Ok(())
+}
+
+pub fn generate(repo: &Repo) -> Result<Vec<GenFile>, String> {
+    let mut t = Tables::default();
+    for file in repo.non_test_files() {
+        scan_items(file, &file.ast.items, &mut t)?;
+    }
+    for required in [
+        "src/bytes/serde.rs",
+        "src/string/serde.rs",
+        "src/os_string/serde.rs",
+        "src/path/serde.rs",
+        "src/bytes/borsh.rs",
+        "src/string/borsh.rs",
+        "src/bytes/bstr.rs",
+        "src/string/bstr.rs",
+    ] {
+        repo.file(required)?;
+    }
+
+    // `Cow<BStr>` arms take the body of the conversion they dispatch to
+    for i in 0..t.bstr.len() {
+        let want = match t.bstr[i].src {
+            ".cowBorrowed" => ".bstrRef",
+            ".cowOwned" => ".bstring",
+            _ => continue,
+        };
+        let kind = t.bstr[i].kind;
+        let target = t
+            .bstr
+            .iter()
+            .find(|r| r.src == want && r.kind == kind && !r.fallible)
+            .map(|r| r.body.clone())
+            .ok_or_else(|| format!("Gen/Visitors: Cow<BStr> conversion at {} dispatches to a missing `From` impl", t.bstr[i].loc))?;
+        t.bstr[i].body = target;
+    }
+
+    // visitor ids are unique
+    let mut ids = BTreeMap::new();
+    for v in &t.visitors {
+        let id = visitor_id(v.kind, v.borrows_de)?;
+        if let Some(prev) = ids.insert(id, v.loc.clone()) {
+            return Err(format!("Gen/Visitors: two visitors with id {id}: {prev} and {}", v.loc));
+        }
+    }
+
+    let mut o = String::new();
+    o.push_str(HEADER);
+    o.push_str("import HipVerif.Model.CodecTy\n\n");
+    o.push_str("/-! Serialisation table (C16): serde visitors, `Serialize`/`Deserialize` entry points, borsh\n");
+    o.push_str("reader/writer shapes and bstr conversions, as read from the crate's source. -/\n\n");
+    o.push_str("namespace HipVerif.Gen.Visitors\nopen HipVerif.Codec\n\n");
+
+    o.push_str("def visitors : List VisitorRow := [\n");
+    for (i, v) in t.visitors.iter().enumerate() {
+        o.push_str(&format!(
+            "  {{ id := {}, kind := {}, name := \"{}\", borrowsDe := {}, loc := \"{}\",\n    methods := [\n",
+            visitor_id(v.kind, v.borrows_de)?,
+            v.kind.lean(),
+            v.name,
+            v.borrows_de,
+            v.loc
+        ));
+        for (j, (m, b, l)) in v.methods.iter().enumerate() {
+            let sep = if j + 1 == v.methods.len() { "" } else { "," };
+            o.push_str(&format!("      ⟨{m}, {}, \"{l}\"⟩{sep}\n", b.lean()));
+        }
+        let sep = if i + 1 == t.visitors.len() { "" } else { "," };
+        o.push_str(&format!("    ] }}{sep}\n"));
+    }
+    o.push_str("]\n\n");
+
+    o.push_str("def deRows : List DeRow := [\n");
+    for (i, d) in t.de.iter().enumerate() {
+        let target = match &d.target {
+            DeTarget::Visitor { hint, visitor } => {
+                let v = t
+                    .visitors
+                    .iter()
+                    .find(|v| v.file == d.file && &v.name == visitor)
+                    .ok_or_else(|| format!("Gen/Visitors: visitor `{visitor}` used at {} not found in {}", d.loc, d.file))?;
+                format!(".visitor {hint} {}", visitor_id(v.kind, v.borrows_de)?)
+            }
+            DeTarget::StdOsString => ".stdOsString".to_string(),
+            DeTarget::Hip { kind, borrowing } => {
+                format!(".hip {} {}", kind.lean(), if *borrowing { ".borrowing" } else { ".owned" })
+            }
+        };
+        let sep = if i + 1 == t.de.len() { "" } else { "," };
+        o.push_str(&format!(
+            "  ⟨{}, {}, {target}, \"{}\"⟩{sep}\n",
+            d.kind.lean(),
+            if d.borrowing { ".borrowing" } else { ".owned" },
+            d.loc
+        ));
+    }
+    o.push_str("]\n\n");
+
+    o.push_str("def serRows : List SerRow := [\n");
+    for (i, (k, c, l)) in t.ser.iter().enumerate() {
+        let sep = if i + 1 == t.ser.len() { "" } else { "," };
+        o.push_str(&format!("  ⟨{}, {c}, \"{l}\"⟩{sep}\n", k.lean()));
+    }
+    o.push_str("]\n\n");
+
+    o.push_str("def borshDeRows : List BorshDeRow := [\n");
+    for (i, (k, s, l)) in t.borsh_de.iter().enumerate() {
+        let sep = if i + 1 == t.borsh_de.len() { "" } else { "," };
+        o.push_str(&format!("  ⟨{}, {s}, \"{l}\"⟩{sep}\n", k.lean()));
+    }
+    o.push_str("]\n\n");
+
+    o.push_str("def borshSerRows : List BorshSerRow := [\n");
+    for (i, (k, s, l)) in t.borsh_ser.iter().enumerate() {
+        let sep = if i + 1 == t.borsh_ser.len() { "" } else { "," };
+        o.push_str(&format!("  ⟨{}, {s}, \"{l}\"⟩{sep}\n", k.lean()));
+    }
+    o.push_str("]\n\n");
+
+    o.push_str("def bstrRows : List BstrRow := [\n");
+    for (i, r) in t.bstr.iter().enumerate() {
+        let sep = if i + 1 == t.bstr.len() { "" } else { "," };
+        o.push_str(&format!(
+            "  ⟨{}, {}, {}, {}, \"{}\"⟩{sep}\n",
+            r.src,
+            r.kind.lean(),
+            r.fallible,
+            r.body.lean(),
+            r.loc
+        ));
+    }
+    o.push_str("]\n\n");
+    o.push_str("end HipVerif.Gen.Visitors\n");
+
+    Ok(vec![GenFile { name: "Visitors.lean".into(), content: o }])
 }
